@@ -66,7 +66,7 @@ let () =
         | Some ac -> int_of_z (K.accrual_verdict s ac ends ts)
         | None -> 0 in
       let model =
-        match (if use_pinned then K.txn_create s else K.txn_create_fixed s) with
+        match K.txn_create_gen (if use_pinned then K.rebook_pinned else K.rebook_fixed) s with
         | K.MOk ts ->
           let v = if use_pinned then 0 else verdict ts in
           render_txns ts ^ (if v = 0 then "" else "!model-fails-spec-clause-" ^ string_of_int v)
